@@ -103,4 +103,31 @@ PartClasses ==
 Written(p, quoted) == IF quoted THEN <<BQ>> \o p[2] \o <<BQ>> ELSE p[2]
 RECURSIVE Join(_)
 Join(ws) == IF Len(ws) = 1 THEN ws[1] ELSE ws[1] \o <<DOT>> \o Join(Tail(ws))
+
+----------------------------------------------------------------------------
+(* user / system variables: @name, @@name, or the name between one pair of ' " ` delimiters; inside the  *)
+(* delimiters every character other than the delimiter is a character of the name (the two other quote  *)
+(* characters included); a bare name is made of letters _ . $                                            *)
+IsVarChar(c) == (c >= 65 /\ c <= 90) \/ (c >= 97 /\ c <= 122) \/ c = 95 \/ c = DOT \/ c = 36
+RECURSIVE VarBody(_, _, _, _)
+VarBody(text, i, q, acc) ==
+  IF i > Len(text) THEN [ok |-> q = 0 /\ acc # <<>>, name |-> acc, end |-> i - 1]
+  ELSE LET c == text[i] IN
+    IF q # 0 THEN (IF c = q THEN [ok |-> acc # <<>>, name |-> acc, end |-> i] ELSE VarBody(text, i + 1, q, Append(acc, c)))
+    ELSE IF IsVarChar(c) THEN VarBody(text, i + 1, q, Append(acc, c))
+    ELSE [ok |-> acc # <<>>, name |-> acc, end |-> i - 1]
+ScanVar(text) ==
+  IF Len(text) < 2 \/ text[1] # 64 THEN [ok |-> FALSE, sys |-> FALSE, name |-> <<>>, end |-> 0]
+  ELSE LET sys == text[2] = 64
+           i == IF sys THEN 3 ELSE 2 IN
+       IF i > Len(text) THEN [ok |-> FALSE, sys |-> sys, name |-> <<>>, end |-> 0]
+       ELSE LET q == IF text[i] \in {SQ, DQ, BQ} THEN text[i] ELSE 0
+                r == VarBody(text, IF q = 0 THEN i ELSE i + 1, q, <<>>) IN
+            [ok |-> r.ok /\ (q = 0 \/ IsVarChar(r.name[1])), sys |-> sys, name |-> r.name, end |-> r.end]
+VarDenotes(text, sys, name) == LET r == ScanVar(text) IN r.ok /\ r.end = Len(text) /\ r.sys = sys /\ r.name = name
+
+\* written forms: delimiter 0 (bare) or one of the quote characters
+VarUnits(q) == IF q = 0 THEN {<<97>>, <<DOT>>, <<36>>, <<95>>, <<65>>}
+               ELSE {<<97>>, <<DOT>>, <<32>>, <<37>>, <<233>>, <<45>>} \cup {<<o>> : o \in {SQ, DQ, BQ} \ {q}}
+VarText(q, sys, name) == (IF sys THEN <<64, 64>> ELSE <<64>>) \o (IF q = 0 THEN name ELSE <<q>> \o name \o <<q>>)
 =============================================================================
